@@ -1,9 +1,10 @@
 import PhyVerif.Driver.Rat
 import PhyVerif.Driver.C05
+import PhyVerif.Driver.C09
 import PhyVerif.Model.C14
 import PhyVerif.Spec.C14
 namespace PhyVerif.Driver
-open Lean PhyVerif PhyVerif.C14
+open Lean PhyVerif PhyVerif.C14 PhyVerif.C09
 
 def runC14 (op : String) (j : Json) : R Json := do
   match op with
@@ -24,7 +25,13 @@ def runC14 (op : String) (j : Json) : R Json := do
     pure (Json.mkObj [("model", jList jNats model),
                       ("model_spec", Json.bool ((peaks.zip model).all fun p => nearestOK pos pr p.1 ncw p.2)),
                       ("impl_spec", match impl with
-                        | some rows => Json.bool ((peaks.zip rows).all fun p => nearestOK pos pr p.1 ncw p.2)
+                        | some rows => Json.bool (rows.length == peaks.length &&
+                            (peaks.zip rows).all fun p => nearestOK pos pr p.1 ncw p.2)
+                        | none => Json.null),
+                      -- theorem `nearestOK_peak_first`: with pairwise distinct positions the first listed channel IS the peak
+                      ("impl_peak_first", match impl with
+                        | some rows => Json.bool (ncw == 0 || !(pos.eraseDups.length == pos.length) ||
+                            (peaks.zip rows).all fun p => p.2.head? == some p.1)
                         | none => Json.null)])
   | "depths" =>
     let ys ← getRats j "ys"; let peaks ← getNats j "peaks"; let nan ← getNats j "nan_idx"
@@ -32,6 +39,30 @@ def runC14 (op : String) (j : Json) : R Json := do
     let cd := clusterDepths ys peaks nan
     pure (Json.mkObj [("cluster_depths", jList (jOpt jRat) cd),
                       ("spike_depths", jList (jOpt jRat) (spikeDepthsFromClusters cd sc))])
+  | "amp_files" =>
+    -- value side of make_template_and_spikes_objects: both calls of get_amplitudes_true with the unit factor and the
+    -- gather of the listed channels (the tables `inds_*` are the rows the real export wrote, validated by `nearest`)
+    let wmi ← getRatMat j "wmi"; let amps ← getRats j "amplitudes"; let f ← getRat j "factor"
+    let dT : Data := ⟨← getRat3 j "templates", wmi, amps, ← getNats j "spike_templates"⟩
+    let dC : Data := ⟨← getRat3 j "clusters_wfs", wmi, amps, ← getNats j "spike_clusters"⟩
+    -- `impl_*`: rows read from the real export (absent when the check re-asks without the real output)
+    let indsT := (← optField j "impl_inds_t" (asList (asList asNat))).getD []
+    let indsC := (← optField j "impl_inds_c" (asList (asList asNat))).getD []
+    let e := exportAmpFiles dT dC f indsT indsC
+    pure (Json.mkObj [("spikes_amps", jRats e.spikesAmps),
+                      ("templates_amps", jList (jOpt jRat) e.templatesAmps),
+                      ("templates_waveforms", jList (jOpt jRatMat) e.templatesWaveforms),
+                      ("clusters_amps", jList (jOpt jRat) e.clustersAmps),
+                      ("clusters_waveforms", jList (jOpt jRatMat) e.clustersWaveforms)])
+  | "ptt" =>
+    let wfs ← getRat3 j "wfs"; let rate ← getRat j "rate"; let nan ← getNats j "nan_idx"
+    pure (Json.mkObj [("peak", jNats (peakChannels wfs)),
+                      ("ptt", jList (jOpt jRat) (exportPeakToTrough wfs rate nan)),
+                      -- harness aids for floating-point cluster waveforms (see Driver/C09 `nearPeaks`): admissible peak
+                      -- channels, and the NaN-masked duration measured on every channel
+                      ("near_peaks", jList jNats (wfs.map nearPeaks)),
+                      ("ptt_table", jList (jList (jOpt jRat)) ((durTableMs wfs rate).zipIdx.map fun p =>
+                        p.1.map fun x => if nan.contains p.2 then none else some x))])
   | _ => .error s!"C14: unknown op {op}"
 
 end PhyVerif.Driver
